@@ -53,6 +53,10 @@ def random_spec(rng, shapes=None, strategy=None, plugins=None):
     if rng.random() < 0.15:
         opts['transaction_column_name'] = 'tx_id'
         opts['end_transaction_column_name'] = 'end_tx_id'
+    if rng.random() < 0.12:
+        opts['operation_type_column_name'] = 'op_type'
+    if rng.random() < 0.12:
+        opts['table_name'] = '%s_history'
     if plugins is None:
         plugins = []
         if rng.random() < 0.25:
@@ -86,6 +90,11 @@ def random_spec(rng, shapes=None, strategy=None, plugins=None):
     else:
         raise ValueError(shape)
     spec['shape'] = shape
+    if opts['strategy'] == 'validity' and rng.random() < 0.1:
+        # class-level override of the end-transaction column name (children inherit __versioned__)
+        for c in spec['classes']:
+            if c.get('versioned') is not None:
+                c['versioned'] = dict(c['versioned'], end_transaction_column_name='valid_until')
     return spec
 
 
@@ -143,6 +152,7 @@ def random_program(rng, spec, nsteps, weights=None, nkeys=3, nvals=4, allow_clas
             class_of[(root(cname), tuple(pk))] = cname
             if (root(cname), tuple(pk)) in deleted_unflushed:
                 prog.append(['flush'])
+                sp_flushed[0] = True
                 deleted_unflushed.clear()
             attrs = {}
             for a, t in info[cname]['attrs']:
